@@ -1,1 +1,8 @@
 import RaftLogModel.Props.C16
+open RaftLog
+#print axioms c16_call_no_panic_partial
+#print axioms c16_fresh_panicFree
+#print axioms c16_history_no_panic_partial
+#print axioms c16_read_inverted_empty
+#print axioms c16_truncate_zero_is_error
+#print axioms c16_witness_u64_max
